@@ -26,3 +26,20 @@ package kubernetes
 //@ ensures.kind[C10,C15] typeis(result, "*haMembership") && fresh(as(result, "*haMembership")) && as(result, "*haMembership").info == nil
 //@ ensures.subscribed[C10] calls(EventBus.Bus.SubscribeAsync) == 1 && arg(EventBus.Bus.SubscribeAsync, 0, topic) == helpers.MembershipChangedBusEventName && arg(EventBus.Bus.SubscribeAsync, 0, transactional) == true && isbound(ifaceval(arg(EventBus.Bus.SubscribeAsync, 0, fn)), "(*haMembership).membershipChangedListener")
 //@ modifies calls(EventBus.Bus.SubscribeAsync)
+
+// The latest notification is the member's number and the group size (C09, C10).
+//@ func (*haMembership).membershipChangedListener
+//@ params h model
+//@ props C09 C10
+//@ requires h != nil
+//@ ensures.latest_notification_wins[C09,C10] h.info == model
+//@ ensures.first_notification_wakes_the_waiter[C10] old(h.info) == nil ==> dcalls("go:kubernetes.(*haMembership).membershipChangedListener$1") == 1
+//@ ensures.later_notifications_wake_nobody[C10] old(h.info) != nil ==> dcalls("go:kubernetes.(*haMembership).membershipChangedListener$1") == 0
+//@ modifies h.info, calls("go:kubernetes.(*haMembership).membershipChangedListener$1")
+
+//@ func (*haMembership).GetInfo
+//@ params h
+//@ props C09 C10
+//@ requires h != nil
+//@ ensures.known[C09,C10] old(h.info) != nil ==> result == old(h.info)
+//@ modifies chan(h.infoChan)
